@@ -4,6 +4,41 @@ From SC Require Import Base.Res Base.PyList Inst.Heap Inst.ClassTable Inst.Model
 Import ListNotations.
 Open Scope nat_scope.
 
+Lemma dc_top_carries_dnc ct :
+  (forall c k, lookup_cls ct c = Some k -> c_dnc k = false) ->
+  forall f s l c d k r s',
+    nth_error (heap s) l = Some (OInst c d) -> lookup_cls ct c = Some k ->
+    dc ct (S f) (VRef l) [] s = (Ok r, s') ->
+    exists r' d', fst r = VRef r' /\ nth_error (heap s') r' = Some (OInst c d') /\ Forall2 (carried k) d d'.
+Proof.
+  intros no_dnc f s l c d k r s' Hn Hk Hdc.
+  cbn [dc assoc find option_map] in Hdc.
+  apply bind_inv in Hdc. destruct Hdc as (o & s0 & Hrd & Hdc).
+  unfold read in Hrd. rewrite Hn in Hrd. inversion Hrd; subst o s0. clear Hrd.
+  rewrite Hk, (no_dnc c k Hk) in Hdc.
+  apply bind_inv in Hdc. destruct Hdc as (new & s1 & Hal & Hdc).
+  unfold alloc in Hal. inversion Hal; subst new s1. clear Hal.
+  apply bind_inv in Hdc. destruct Hdc as (memo' & s2 & Hfold & Hdc).
+  apply bind_inv in Hdc. destruct Hdc as (u & s3 & Hpc & Hdc). inversion Hdc; subst r s3. clear Hdc.
+  assert (Hn1 : nth_error (heap {| heap := heap s ++ [OInst c []]; ncalls := ncalls s; fail_at := fail_at s |})
+                          (length (heap s)) = Some (OInst c [])).
+  { simpl. rewrite nth_error_app2 by lia. rewrite Nat.sub_diag. reflexivity. }
+  destruct (dc_fold_carried ct no_dnc k c f (length (heap s)) d [] []
+              {| heap := heap s ++ [OInst c []]; ncalls := ncalls s; fail_at := fail_at s |} memo' s2 Hn1 Hfold)
+    as (d' & Hd' & Hc).
+  exists (length (heap s)), d'. split; [reflexivity|]. split; [|exact Hc]. simpl in Hd'.
+  assert (Hlt : length (heap s) < length (heap s2)) by (apply nth_error_Some; congruence).
+  assert (Hfr : frame (S (length (heap s))) s2 s').
+  { destruct (c_post_copy k) as [g|].
+    - apply bind_inv in Hpc. destruct Hpc as (v & s4 & Hap & Hr). inversion Hr; subst.
+      destruct (framed_apply_fn (S (length (heap s))) g VNone s2 Hlt) as [Fr _]. rewrite Hap in Fr. exact Fr.
+    - inversion Hpc; subst. apply frame_refl. }
+  destruct Hfr as [_ Fr]. rewrite Fr by lia. exact Hd'.
+Qed.
+
+Lemma deepcopy_unfold ct v : deepcopy ct v = (r <- dc ct FUEL v [] ;; ret (fst r)).
+Proof. reflexivity. Qed.
+
 Theorem deepcopy_carries_dnc ct :
   (forall c k, lookup_cls ct c = Some k -> c_dnc k = false) ->
   forall s l c d k r' s',
@@ -12,27 +47,10 @@ Theorem deepcopy_carries_dnc ct :
     exists d', nth_error (heap s') r' = Some (OInst c d') /\ Forall2 (carried k) d d'.
 Proof.
   intros no_dnc s l c d k r' s' Hn Hk Hrun.
-  unfold deepcopy in Hrun. apply bind_inv in Hrun. destruct Hrun as (r & s1 & Hdc & Hret).
-  inversion Hret; subst s1. clear Hret. unfold FUEL in Hdc.
-  cbn [dc assoc find option_map] in Hdc.
-  apply bind_inv in Hdc. destruct Hdc as (o & s0 & Hrd & Hdc).
-  unfold read in Hrd. rewrite Hn in Hrd. inversion Hrd; subst o s0. clear Hrd.
-  rewrite Hk, (no_dnc c k Hk) in Hdc.
-  apply bind_inv in Hdc. destruct Hdc as (new & s1 & Hal & Hdc).
-  unfold alloc in Hal. inversion Hal; subst new s1. clear Hal.
-  apply bind_inv in Hdc. destruct Hdc as (memo' & s2 & Hfold & Hdc).
-  apply bind_inv in Hdc. destruct Hdc as (u & s3 & Hpc & Hdc). inversion Hdc; subst. clear Hdc.
-  simpl in H0. inversion H0; subst r'. clear H0.
-  assert (Hn1 : nth_error (heap {| heap := heap s ++ [OInst c []]; ncalls := ncalls s; fail_at := fail_at s |})
-                          (length (heap s)) = Some (OInst c [])).
-  { simpl. rewrite nth_error_app2 by lia. rewrite Nat.sub_diag. reflexivity. }
-  destruct (dc_fold_carried ct no_dnc k c _ (length (heap s)) d [] [] _ memo' s2 Hn1 Hfold) as (d' & Hd' & Hc).
-  exists d'. split; [|exact Hc]. simpl in Hd'.
-  assert (Hlt : length (heap s) < length (heap s2)) by (apply nth_error_Some; congruence).
-  assert (Hfr : frame (S (length (heap s))) s2 s').
-  { destruct (c_post_copy k) as [g|].
-    - apply bind_inv in Hpc. destruct Hpc as (v & s4 & Hap & Hr). inversion Hr; subst.
-      destruct (framed_apply_fn (S (length (heap s))) g VNone s2 Hlt) as [Fr _]. rewrite Hap in Fr. exact Fr.
-    - inversion Hpc; subst. apply frame_refl. }
-  destruct Hfr as [_ Fr]. rewrite Fr by lia. exact Hd'.
+  assert (HF : exists f, FUEL = S f) by (exists 63; reflexivity). destruct HF as [f HF].
+  rewrite deepcopy_unfold in Hrun. rewrite HF in Hrun.
+  apply bind_inv in Hrun. destruct Hrun as (r & s1 & Hdc & Hret).
+  inversion Hret; subst s1. clear Hret.
+  destruct (dc_top_carries_dnc ct no_dnc f s l c d k r s' Hn Hk Hdc) as (r0 & d' & E & H1 & H2).
+  rewrite E in H0. inversion H0; subst r0. exists d'. auto.
 Qed.
